@@ -42,6 +42,7 @@ class W14(c11.World):
         self.dbfile = dbfile
         self.ext = sqlite3.connect(dbfile, timeout=0, isolation_level=None)       # the second writer
         self.reader = sqlite3.connect(dbfile, timeout=0, isolation_level=None)    # independent observer
+        self.txn_written = []
 
     def close(self):
         for c in (self.ext, self.reader):
@@ -127,11 +128,17 @@ class W14(c11.World):
 
     def op_commit14(self, op):
         pend = self.pending_auto()
-        written = self.touched()
+        written = list(self.txn_written)
         err, exc = self.call(commit)
+        self.txn_written = []
         res = {'err': err, 'mop': {'k': 'commit', 'ids': self.ids_after(pend, err, exc)}, 'msg': str(exc) if err else None, 'written': written}
         if err is not None: res['reset'] = True
         return res
+
+    def touched_safe(self):
+        cache = core.local.db2cache.get(self.db)
+        if cache is None or not cache.is_alive: return []
+        return [o for o in cache.objects_to_save if o is not None and isinstance(o, self.E0)]
 
     def touched(self):
         """objects with pending writes right now (checked against the table after a successful commit)"""
@@ -140,6 +147,7 @@ class W14(c11.World):
 
     def op_rollback14(self, op):
         err, exc = self.call(rollback)
+        self.txn_written = []
         return {'err': err, 'mop': {'k': 'rollback'}, 'reset': True}
 
     def op_fetch14(self, op):
@@ -169,6 +177,10 @@ class W14(c11.World):
     def apply14(self, op):
         k = op['k']
         self.log.clear(); self.raw()
+        if k in ('flush', 'oflush', 'fetch', 'commit'):
+            # everything the session writes in this transaction (also in flushes before the commit) is checked at the commit
+            for o in self.touched_safe():
+                if not any(o is x for x in self.txn_written): self.txn_written.append(o)
         try:
             if k in ('create', 'set', 'delete', 'read'):
                 r = getattr(self, 'op_' + k)(op)
@@ -303,7 +315,7 @@ def run_history(spec, sessions=None, rng=None, nsess=0, nops=0, ctx=None, workdi
                 if count_s >= nsess: break
                 pending = None
             count_s += 1
-            w.objs = []; w.dumps = []
+            w.objs = []; w.dumps = []; w.txn_written = []
             exit_err = None
             doomed = set(); keep_alive = []
             try:
